@@ -128,3 +128,11 @@ CHECKS = {
         ],
     },
 }
+
+
+# checks contributed as separate files: tools/vconfig_extra_<ID>.py defines CHECK = {...}
+import glob as _glob, os as _os
+for _f in sorted(_glob.glob(_os.path.join(_os.path.dirname(_os.path.abspath(__file__)), "vconfig_extra_*.py"))):
+    _ns = {"TRACER_BASE": TRACER_BASE, "TRACER_INSTRUMENT": TRACER_INSTRUMENT}
+    exec(open(_f).read(), _ns)
+    CHECKS[_os.path.basename(_f)[len("vconfig_extra_"):-3]] = _ns["CHECK"]
